@@ -4,13 +4,30 @@ import json, sys, glob, os
 import jsonschema
 HERE = os.path.dirname(os.path.dirname(os.path.abspath(__file__)))
 bad = 0
-jsonschema.validate(json.load(open(HERE + "/MANIFEST.json")), json.load(open("/root/.vp/MANIFEST.schema.json")))
+man = json.load(open(HERE + "/MANIFEST.json"))
+jsonschema.validate(man, json.load(open("/root/.vp/MANIFEST.schema.json")))
 es = json.load(open("/root/.vp/EVIDENCE.schema.json"))
-for f in sorted(glob.glob(HERE + "/evidence/*.json")):
+files = sorted(glob.glob(HERE + "/evidence/*.json")) + sorted(glob.glob(HERE + "/evidence/extra/*.json"))
+for f in files:
     try:
         jsonschema.validate(json.load(open(f)), es)
     except Exception as e:
         bad += 1
         print("INVALID", f, str(e)[:300])
-print("manifest valid; evidence files checked:", len(glob.glob(HERE + "/evidence/*.json")), "invalid:", bad)
+# every claimed check has its evidence file and the ids agree
+for c in man["checks"]:
+    p = os.path.join(HERE, c["evidence_file"])
+    if not os.path.exists(p):
+        bad += 1
+        print("MISSING", c["evidence_file"])
+    elif json.load(open(p)).get("property_id") != c["property_id"]:
+        bad += 1
+        print("WRONG ID", c["evidence_file"])
+# known findings file is well formed
+kf = json.load(open(HERE + "/known_findings.json"))
+for k in kf["findings"]:
+    assert k["status"] in ("known", "fixed") and k.get("key") and k.get("property"), k
+print("manifest valid; evidence files checked: %d invalid: %d; findings: %d fixed, %d known" % (
+    len(files), bad, sum(1 for k in kf["findings"] if k["status"] == "fixed"),
+    sum(1 for k in kf["findings"] if k["status"] == "known")))
 sys.exit(1 if bad else 0)
